@@ -6,6 +6,7 @@ import random
 import numpy as np
 
 import common
+import minplascalc as mpc
 import gen
 import solver
 import solverchecks as sc
@@ -94,6 +95,29 @@ def check(run):
                     if dv > ENVELOPE and found is None:
                         found = {"kind": "input", "what": f"composition depends on solver controls beyond the envelope: {dv:.3e} (controls {ctl})",
                                  "case": sc.describe(sps, x0, float(T), P, ctl)}
+    # (e) one object walked through several states, failing ones among them: every return of a re-used object is announced exactly as a fresh
+    #     object announces it (a warning is not a one-off)
+    import warnings as _w
+    for sps0, x00 in shipped_sets:
+        seq = [(300.0, 101325.0), (250.0, 101325.0), (5000.0, 101325.0), (200.0, 1e5), (1000.0, 1e8), (12000.0, 1e5), (400.0, 1e3)]
+        rng.shuffle(seq)
+        m = mpc.mixture.LTE(sps0, x00, 10000.0, 101325.0, *solver.DEFAULT_CONTROLS)
+        for (T, P) in seq[:(7 if thorough else 4)]:
+            m.T, m.P = T, P
+            with _w.catch_warnings(record=True) as wl:
+                _w.simplefilter("always")
+                try:
+                    nd = np.asarray(m.calculate_composition(), dtype=float)
+                    w_re = any("Minimiser could not find" in str(x.message) for x in wl)
+                except Exception as e:  # noqa: BLE001
+                    nd, w_re = None, f"exception:{type(e).__name__}"
+            hist[f"reused:{'ok' if w_re is False else 'announced'}"] = hist.get(f"reused:{'ok' if w_re is False else 'announced'}", 0) + 1
+            run.count(1, distinct_key=("reused", tuple(sp.name for sp in sps0), T, P), nontrivial=True)
+            if w_re is False:
+                v = violates(m, nd, x00)
+                if v and found is None:
+                    found = {"kind": "input", "what": "a re-used object returned without the non-convergence warning but: " + v,
+                             "case": sc.describe(sps0, x00, T, P, solver.DEFAULT_CONTROLS), "history": [list(t) for t in seq]}
     run.cov["outcome_histogram"] = hist
     for (m, nd, warned) in runs[:3]:
         run.sample({"species": [s.name for s in m.species], "T": m.T, "P": m.P, "controls": [m.gfe_initial_particles, m.gfe_rtol, m.gfe_max_iter],
@@ -103,6 +127,10 @@ def check(run):
     else:
         dis, nrep = sc.control_correspondence(runs)
         run.cov["traces_validated_against_impl"] += nrep
+        # the stopping quantity itself (which species it judges) with NON-default controls: step model against recorded iterations
+        nondef = [r for r in runs if (r[0].gfe_initial_particles, r[0].gfe_rtol, r[0].gfe_max_iter) != solver.DEFAULT_CONTROLS and r[2] is False]
+        sdis = sc.trace_correspondence(run, nondef[:(60 if thorough else 15)])
+        dis = dis + [d for d in sdis if d["what"] in ("stopping quantity", "relaxation factor", "relaxed iterate")]
         run.cov["correspondence_disagreements"] = len(dis)
         if dis:
             broken.append({"stage": "correspondence", "detail": dis[:3]})
